@@ -268,3 +268,14 @@ def fold_str(ctx: Ctx, f: FunctionInfo, e: Optional[ast.AST], at: int, depth: in
             return None
         return (l if l is not None else "\x00") + (r if r is not None else "\x00")
     return s
+
+
+def cleanup_in_reraising_handler(ctx: Ctx, f: FunctionInfo, hn: Node) -> bool:
+    """Is this handler part of best-effort cleanup nested inside an outer handler that re-raises on every path?"""
+    g = ctx.cfg(f)
+    for fr in reversed(hn.frames):
+        if fr.kind == "try" and fr.part == "handler" and fr.handler is not None:
+            outer = next((x for x in g.nodes if x.kind == "handler" and x.ast is fr.handler), None)
+            if outer is not None and handler_always_raises(ctx, f, outer):
+                return True
+    return False
